@@ -156,9 +156,25 @@ func (g *Gen) Bootstrap() []*transaction.Transaction {
 	v := []neotest.Signer{g.E.Validator}
 	for _, a := range g.Accts {
 		txs = append(txs, g.tx(v, g.hash(nativenames.Gas), "transfer", g.E.Validator.ScriptHash(), a.ScriptHash(), int64(3000_00000000), nil))
-		txs = append(txs, g.tx(v, g.hash(nativenames.Neo), "transfer", g.E.Validator.ScriptHash(), a.ScriptHash(), int64(1000+g.R.Intn(5000)), nil))
+		txs = append(txs, g.tx(v, g.hash(nativenames.Neo), "transfer", g.E.Validator.ScriptHash(), a.ScriptHash(), int64(5_000_000+g.R.Intn(8_000_000)), nil))
 	}
 	txs = append(txs, g.tx([]neotest.Signer{g.E.Committee}, g.hash(nativenames.Neo), "setRegisterPrice", int64(5_00000000)))
+	return txs
+}
+
+// Bootstrap2 makes the committee depend on votes: enough candidates and enough voter turnout.
+func (g *Gen) Bootstrap2() []*transaction.Transaction {
+	var txs []*transaction.Transaction
+	for i, a := range g.Accts {
+		if i < len(g.Net.Committee)+1 {
+			txs = append(txs, g.tx([]neotest.Signer{a}, g.hash(nativenames.Neo), "registerCandidate", a.Account().PublicKey().Bytes()))
+			g.Cands[i] = true
+		}
+	}
+	for i, a := range g.Accts {
+		c := g.Accts[(i*3+1)%(len(g.Net.Committee)+1)]
+		txs = append(txs, g.tx([]neotest.Signer{a}, g.hash(nativenames.Neo), "vote", a.ScriptHash(), c.Account().PublicKey().Bytes()))
+	}
 	return txs
 }
 
@@ -207,7 +223,7 @@ func (g *Gen) one() *transaction.Transaction {
 		amt := int64(g.R.Intn(3)) * int64(1+g.R.Intn(1000_0000))
 		if kind == "neo" {
 			tok = nativenames.Neo
-			amt = int64(g.R.Intn(4)) * int64(g.R.Intn(300))
+			amt = int64(g.R.Intn(4)) * int64(g.R.Intn(1_500_000))
 		}
 		var to util.Uint160
 		var data any
@@ -368,6 +384,8 @@ func (g *Gen) NextTxs(max int) []*transaction.Transaction {
 	var cand []*transaction.Transaction
 	if g.BC.BlockHeight() == 0 {
 		cand = g.Bootstrap()
+	} else if g.BC.BlockHeight() == 1 {
+		cand = g.Bootstrap2()
 	} else {
 		n := g.R.Intn(max + 1)
 		for len(cand) < n {
